@@ -15,7 +15,7 @@ import cvss
 from cvss import CVSS2, CVSS3, CVSS4
 from cvss.parser import parse_cvss_from_text
 import cvss.interactive, cvss.cvss_calculator  # noqa - loaded up front: the digest of the library's module globals covers them from the start
-from obs import esc, unesc, observe, json_obs
+from obs import esc, unesc, observe, json_obs, hb_iter, hb
 
 CLS = {"2": CVSS2, "3": CVSS3, "4": CVSS4}
 PIPELINE = ("parse_vector", "check_mandatory", "handle_scope", "add_missing_optional", "compute_base_score",
@@ -575,7 +575,7 @@ def preempt(item):
 def main():
     job = json.load(io.open(sys.argv[1], encoding="utf-8"))
     out = []
-    for it in job["items"]:
+    for it in hb_iter(job["items"]):
         kind = it["kind"]
         g0 = globals_digest()
         ev = {"kind": kind, "g0": g0}
